@@ -116,7 +116,7 @@ Connect ==
                    ELSE IF Len(tc) <= Len(other.i) THEN {SubSeq(other.i, 1, Len(tc))} ELSE {}) :
           /\ PreConnect(st, other, tc, oc, right, name, TRUE)
           /\ Step(DoConnect(st, other, tc, oc, right, name, TRUE, DevNoUsers, DevNoBlockMember),
-                  [a |-> "connect", lib |-> k, tc |-> tc, oc |-> oc, right |-> right,
+                  [a |-> "connect", lib |-> k, other |-> LibRaw[k], tc |-> tc, oc |-> oc, right |-> right,
                    name |-> name, pfx |-> TRUE])
 IntoBench ==
   /\ PreIntoBench(st)
